@@ -30,7 +30,11 @@ def is_comment_type(ttype):
 
 
 def tname(ttype):
-    return 'None' if ttype is None else '.'.join(ttype) or 'Token'
+    if ttype is None:
+        return 'None'
+    if not isinstance(ttype, tuple):
+        return f'<not a token type: {ttype!r:.40}>'
+    return '.'.join(ttype) or 'Token'
 
 
 def crash_site(exc):
@@ -49,14 +53,22 @@ def crash_site(exc):
 class RefLexer:
     """First-match-wins scan over the *current* rule table, re-applied rule by rule."""
 
-    def __init__(self):
+    def __init__(self, table=None, tables=None):
+        """default: the rule table and the nine keyword tables of the default lexer; `table` / `tables` describe
+        a caller's own Lexer configuration (set_SQL_REGEX / add_keywords in that order)"""
         import re
         from sqlparse import keywords, tokens as T, lexer
         self.T = T
         self.kw = keywords
+        flags = re.IGNORECASE | re.UNICODE
+        if table is not None:
+            self.rules = [(re.compile(rx, flags), tt) for rx, tt in table]
+            self.tables = list(tables or [])
+            self.table_problem = None
+            self.min_width = [re._parser.parse(rx, flags).getwidth()[0] for rx, _ in table]
+            return
         inst = lexer.Lexer.get_default_instance()
         self.inst = inst
-        flags = re.IGNORECASE | re.UNICODE
         self.rules = [(re.compile(rx, flags), tt) for rx, tt in keywords.SQL_REGEX]
         # the singleton must hold exactly this table, compiled with exactly these flags
         self.table_problem = None
